@@ -136,6 +136,28 @@ func c10Data(variant int) func() map[string]any {
 	}
 }
 
+// a page that resolves several hundred DISTINCT dotted paths (a wide table): more than any bounded cache of parsed paths holds at once
+func init() {
+	var sb strings.Builder
+	sb.WriteString("<table>")
+	for i := 0; i < 320; i++ {
+		fmt.Fprintf(&sb, "<td>{{ wide.k%d }}{{ wide.sub.s%d }}</td>", i, i%40)
+	}
+	sb.WriteString("</table><p>{{ user.name }}{{ user.address.city }}</p>")
+	c10Files["manypaths.vuego"] = sb.String()
+}
+
+func c10WideData() map[string]any {
+	wide := map[string]any{}
+	sub := map[string]any{}
+	for i := 0; i < 320; i++ {
+		wide[fmt.Sprintf("k%d", i)] = i
+		sub[fmt.Sprintf("s%d", i%40)] = "s"
+	}
+	wide["sub"] = sub
+	return map[string]any{"wide": wide, "user": map[string]any{"name": "N", "address": map[string]any{"city": "C"}}}
+}
+
 func c10Progs() []c10Prog {
 	var out []c10Prog
 	for _, f := range []string{"attrs", "style", "loop", "chain", "inc", "once", "filters", "fm", "layouted", "slotpage", "fmset", "nest", "fail", "failinc", "failmid", "failtext", "failreq", "tpl", "vhtml", "map", "tplhtml", "shorthand", "leaksrc", "leaksink", "blog/hello", "docs/intro"} {
@@ -171,6 +193,7 @@ func c10Progs() []c10Prog {
 			}
 			return map[string]any{"prices": prices, "people": people, "byint": byint, "typed": typed}
 		}, "<ul>\n  <li>33</li>\n  <li>36</li>\n  <li>30</li>\n  <li>3</li>\n  <li>15</li>\n  <li>12</li>\n  <li>9</li>\n  <li>21</li>\n  <li>6</li>\n  <li>18</li>\n  <li>0</li>\n  <li>24</li>\n  <li>27</li>\n</ul>\n<ol>\n  <li>0:N-10</li>\n  <li>1:N-9</li>\n  <li>2:N-Zed</li>\n  <li>3:N-apple</li>\n  <li>4:N-banana</li>\n  <li>5:N-cherry</li>\n  <li>6:N-date</li>\n  <li>7:N-elder</li>\n  <li>8:N-fig</li>\n  <li>9:N-grape</li>\n  <li>10:N-kiwi</li>\n  <li>11:N-lime</li>\n  <li>12:N-mango</li>\n</ol>\n<p>v9</p>\n<p>v10</p>\n<p>vZed</p>\n<p>vmango</p>\n<p>vlime</p>\n<p>velder</p>\n<p>vgrape</p>\n<p>vbanana</p>\n<p>vcherry</p>\n<p>vdate</p>\n<p>vfig</p>\n<p>vapple</p>\n<p>vkiwi</p>\n<i>11;</i>\n<i>12;</i>\n<i>10;</i>\n<i>1;</i>\n<i>5;</i>\n<i>4;</i>\n<i>3;</i>\n<i>7;</i>\n<i>2;</i>\n<i>6;</i>\n<i>0;</i>\n<i>8;</i>\n<i>9;</i>\n"},
+		c10Prog{"manypaths", "manypaths.vuego", c10WideData, ""},
 		c10Prog{"stylecache/add", "stylecache.vuego", sc("padding:1px", true), "<div style=\"color:red;margin:0;padding:1px;\">x</div>\n<p style=\"color:red;margin:0\">y</p>\n"},
 		c10Prog{"stylecache/override", "stylecache.vuego", sc("color:blue", false), "<div style=\"color:blue;margin:0;\">x</div>\n<p style=\"color:red;margin:0;display:none;\">y</p>\n"},
 		c10Prog{"stylecache/both", "stylecache.vuego", sc("margin:9px;top:1px", true), "<div style=\"color:red;margin:9px;top:1px;\">x</div>\n<p style=\"color:red;margin:0\">y</p>\n"})
